@@ -40,6 +40,13 @@ func (fs *FS) wrapperErr(op string, path string, err error) error {
 	return &hackpadfs.PathError{Op: op, Path: path, Err: err}
 }
 
+func linkErr(op, oldname, newname string, err error) error {
+	if err == nil {
+		return nil
+	}
+	return &hackpadfs.LinkError{Op: op, Old: oldname, New: newname, Err: err}
+}
+
 // Mkdir implements hackpadfs.MkdirFS
 func (fs *FS) Mkdir(name string, perm hackpadfs.FileMode) error {
 	file := fs.newDir(name, perm)
@@ -141,7 +148,7 @@ func getFileRecords(store *transactionOnly, paths []string) ([]OpResult, error) 
 // findMissingDirs returns all paths that must be created, in reverse order
 func (fs *FS) findMissingDirs(name string) ([]string, error) {
 	if !hackpadfs.ValidPath(name) {
-		return nil, hackpadfs.ErrInvalid
+		return nil, &hackpadfs.PathError{Op: "mkdirall", Path: name, Err: hackpadfs.ErrInvalid}
 	}
 	const fsRootPath = "."
 	var paths []string
@@ -171,7 +178,7 @@ func isMissingDir(path string, info hackpadfs.FileInfo, err error) (missing bool
 	case errors.Is(err, hackpadfs.ErrNotExist):
 		return true, nil
 	case err != nil:
-		return false, err
+		return false, &hackpadfs.PathError{Op: "mkdirall", Path: path, Err: err}
 	case info.IsDir():
 		// found a directory in the chain, return early
 		return false, nil
@@ -243,13 +250,13 @@ func (fs *FS) Remove(name string) error {
 	if file.Mode().IsDir() {
 		dirNames, err := file.ReadDirNames()
 		if err != nil {
-			return err
+			return fs.wrapperErr("remove", name, err)
 		}
 		if len(dirNames) > 0 {
 			return &hackpadfs.PathError{Op: "remove", Path: name, Err: hackpadfs.ErrNotEmpty}
 		}
 	}
-	return fs.setFile(name, nil)
+	return fs.wrapperErr("remove", name, fs.setFile(name, nil))
 }
 
 // Rename implements hackpadfs.RenameFS
@@ -263,7 +270,7 @@ func (fs *FS) Rename(oldname, newname string) error {
 	}
 	oldInfo, err := oldFile.Stat()
 	if err != nil {
-		return err
+		return linkErr("rename", oldname, newname, err)
 	}
 	if !oldInfo.IsDir() {
 		if oldname == newname {
@@ -271,11 +278,11 @@ func (fs *FS) Rename(oldname, newname string) error {
 		}
 		contents, err := oldFile.fileData.Data()
 		if err != nil {
-			return err
+			return linkErr("rename", oldname, newname, err)
 		}
 		txn, err := fs.store.Transaction(TransactionOptions{Mode: TransactionReadWrite})
 		if err != nil {
-			return err
+			return linkErr("rename", oldname, newname, err)
 		}
 		err = fs.setFileTxn(txn, newname, oldFile.fileData, contents)
 		if err == nil {
@@ -286,7 +293,7 @@ func (fs *FS) Rename(oldname, newname string) error {
 		} else {
 			err = commitTxn(txn)
 		}
-		return err
+		return linkErr("rename", oldname, newname, err)
 	}
 
 	_, err = fs.getFile(newname)
@@ -296,11 +303,11 @@ func (fs *FS) Rename(oldname, newname string) error {
 
 	files, err := oldFile.ReadDirNames()
 	if err != nil {
-		return err
+		return linkErr("rename", oldname, newname, err)
 	}
 	err = fs.setFile(newname, oldFile.fileData)
 	if err != nil {
-		return err
+		return linkErr("rename", oldname, newname, err)
 	}
 	for _, name := range files {
 		err := fs.Rename(path.Join(oldname, name), path.Join(newname, name))
@@ -309,7 +316,7 @@ func (fs *FS) Rename(oldname, newname string) error {
 			return err
 		}
 	}
-	return fs.setFile(oldname, nil)
+	return linkErr("rename", oldname, newname, fs.setFile(oldname, nil))
 }
 
 // Stat implements hackpadfs.StatFS
@@ -330,7 +337,7 @@ func (fs *FS) Chmod(name string, mode hackpadfs.FileMode) error {
 
 	newMode := (file.Mode() & ^chmodBits) | (mode & chmodBits)
 	file.modeOverride = &newMode
-	return file.save()
+	return fs.wrapperErr("chmod", name, file.save())
 }
 
 // Chtimes implements hackpadfs.ChtimesFS
@@ -340,5 +347,5 @@ func (fs *FS) Chtimes(name string, atime time.Time, mtime time.Time) error {
 		return fs.wrapperErr("chtimes", name, err)
 	}
 	file.modTimeOverride = mtime
-	return file.save()
+	return fs.wrapperErr("chtimes", name, file.save())
 }
